@@ -540,6 +540,7 @@ func TestVerifC38(t *testing.T) {
 	// Every index.Builder allocates ~70 MB of posting tables and first-touch page faults are
 	// expensive: no automatic collections, an explicit one after every few builds re-uses the pages.
 	defer debug.SetGCPercent(debug.SetGCPercent(-1))
+	defer debug.SetMemoryLimit(debug.SetMemoryLimit(16 << 30)) // ceiling in case the explicit collections are not enough
 
 	scratchBase := os.Getenv("VERIF_SCRATCH")
 	if scratchBase == "" {
